@@ -1,5 +1,176 @@
-"""thorough-tier extras (filled in later): seeds, probes, canaries"""
+"""thorough tier (DESIGN.md 2.6): guards against vacuity and brittleness, on top of the quick proof run.
+
+* stability: every unit is re-verified under three other SMT random seeds (derived from VERIF_SEED); a unit that
+  verifies with the default seed but not with another one is reported (warning, not an alarm);
+* reachability probes: `assert(false)` is planted at the entry of every function under contract and at the top of
+  every loop body; each must FAIL -- a probe that verifies means a contradictory precondition or invariant, i.e. the
+  proofs below it are vacuous -> UNDECIDED;
+* canaries: the committed property-breaking edits for this property (canaries/canaries.json) are applied to a scratch
+  copy of /repo/src; each must be reported as a VIOLATION of the property -> otherwise UNDECIDED.
+"""
+import concurrent.futures
+import os
+import re
+import shutil
+import subprocess
+import sys
+import tempfile
+
+from . import unit as U, runner, extract
+
+
+def _verify_text(unit_name, text, tag, seed=None, multiple_errors=None):
+    d = os.path.join(U.BUILD, tag)
+    os.makedirs(d, exist_ok=True)
+    path = os.path.join(d, unit_name + '.rs')
+    with open(path, 'w') as f:
+        f.write(text)
+    extra = []
+    res = runner.run_verus(path, seed=seed, extra=extra)
+    return res
+
+
+def stability(results, seed):
+    out = {'engine': 'verus-seeds', 'obligations': 0, 'discharged': 0, 'undecided': [], 'violations': [], 'warnings': [],
+           'seeds': [], 'samples': []}
+    seeds = [(seed * 7919 + k * 104729 + 1) % 100000 for k in (1, 2, 3)]
+    out['seeds'] = seeds
+    jobs = []
+    with concurrent.futures.ThreadPoolExecutor(max_workers=6) as ex:
+        for r in results:
+            if r['woven'] is None or r['status'] != 'ok':
+                continue
+            for s in seeds:
+                jobs.append((r['unit'], s, ex.submit(_verify_text, r['unit'], r['woven'].text(), 'seed%d' % s, s)))
+        for (name, s, fut) in jobs:
+            res = fut.result()
+            j = (res['json'] or {}).get('verification-results') or {}
+            ok = bool(j.get('success'))
+            out['samples'].append({'unit': name, 'smt.random_seed': s, 'verified': j.get('verified'), 'errors': j.get('errors'),
+                                   'wall_s': round(res['wall_s'], 1)})
+            if not ok:
+                out['warnings'].append('unit %s does not verify under smt.random_seed=%d (unstable proof; not a violation)' % (name, s))
+    out['cmd'] = 'verus <unit>.rs --smt-option smt.random_seed=<s> for s in %r' % seeds
+    return out
+
+
+LOOP_RE = re.compile(r'^\s*(?:\'[a-z_]+:\s*)?(for|while|loop)\b')
+
+
+def plant_probes(woven, level):
+    """returns (text, probes) where probes = list of (line_no_1based, description).
+    level 0: first line of every fn body inside an extraction region; level k>=1: loops at nesting depth k."""
+    lines = list(woven.lines)
+    kinds = woven.kind
+    out = []
+    probes = []
+    n = len(lines)
+    # state machine over code lines only: find `{` lines that open fn bodies / loop bodies (R13 puts them on their own line)
+    pending = None   # ('fn'|'loop', description)
+    loop_depth_stack = []   # brace depth at which each open loop body started
+    depth = 0
+    in_region_fn = False
+    for i in range(n):
+        line = lines[i]
+        code = kinds[i] == 'code'
+        stripped = line.strip()
+        if code:
+            if re.match(r'^(pub\s+)?(const\s+)?fn\s+\w+', stripped):
+                m = re.match(r'^(?:pub\s+)?(?:const\s+)?fn\s+(\w+)', stripped)
+                pending = ('fn', m.group(1))
+            elif LOOP_RE.match(stripped):
+                pending = ('loop', stripped[:60])
+        out.append(line)
+        if code and stripped == '{' and pending is not None:
+            kind, desc = pending
+            pending = None
+            if kind == 'fn':
+                loop_depth_stack = []
+                if level == 0:
+                    probes.append((len(out) + 1, 'entry of fn ' + desc))
+                    out.append('        proof { assert(false); } // vf-probe')
+            else:
+                loop_depth_stack.append(depth)
+                if level == len(loop_depth_stack):
+                    probes.append((len(out) + 1, 'top of loop body: ' + desc))
+                    out.append('        proof { assert(false); } // vf-probe')
+        if code:
+            net, low = U._brace_profile(line)
+            depth += net
+            while loop_depth_stack and depth <= loop_depth_stack[-1]:
+                loop_depth_stack.pop()
+    return '\n'.join(out) + '\n', probes
+
+
+def probes(results):
+    out = {'engine': 'reachability-probes', 'obligations': 0, 'discharged': 0, 'undecided': [], 'violations': [],
+           'samples': [], 'planted': 0, 'failed_as_expected': 0}
+    jobs = []
+    with concurrent.futures.ThreadPoolExecutor(max_workers=6) as ex:
+        for r in results:
+            if r['woven'] is None or r['status'] != 'ok':
+                continue
+            for level in (0, 1, 2, 3):
+                text, pr = plant_probes(r['woven'], level)
+                if not pr:
+                    continue
+                jobs.append((r['unit'], level, pr, ex.submit(_verify_text, r['unit'], text, 'probe%d' % level)))
+        for (name, level, pr, fut) in jobs:
+            res = fut.result()
+            failed_lines = set()
+            for d in res['diagnostics']:
+                if d.get('level') != 'error':
+                    continue
+                for s in d.get('spans', []):
+                    for ln in range(s['line_start'], s['line_end'] + 1):
+                        failed_lines.add(ln)
+            j = (res['json'] or {}).get('verification-results') or {}
+            if not j or (j.get('errors', 0) == 0 and j.get('encountered-error')):
+                out['undecided'].append('probe run of unit %s (level %d) did not reach verification' % (name, level))
+                continue
+            for (ln, desc) in pr:
+                out['planted'] += 1
+                if ln in failed_lines:
+                    out['failed_as_expected'] += 1
+                else:
+                    out['undecided'].append('VACUOUS? probe at %s in unit %s verified: a precondition or invariant above it may be contradictory' % (desc, name))
+            out['samples'].append({'unit': name, 'level': level, 'probes': len(pr)})
+    out['cmd'] = 'verus <unit with assert(false) planted at fn entries / loop bodies>.rs (every probe must fail)'
+    return out
+
+
+def canaries(prop):
+    out = {'engine': 'canary-mutants', 'obligations': 0, 'discharged': 0, 'undecided': [], 'violations': [], 'samples': [],
+           'ran': 0, 'detected': 0, 'stale': 0}
+    from . import canary as C
+    cs = [c for c in C.load() if prop in c.get('expect_violation', [])]
+    if not cs:
+        out['note'] = 'no canary lists this property'
+        return out
+
+    def one(c):
+        c2 = dict(c, expect_violation=[prop], expect_quiet=[])
+        return C.run_canary(c2)
+    with concurrent.futures.ThreadPoolExecutor(max_workers=6) as ex:
+        for r in ex.map(one, cs):
+            if r['outcome'] == 'STALE':
+                out['stale'] += 1
+                continue
+            out['ran'] += 1
+            if r['outcome'] == 'OK':
+                out['detected'] += 1
+            else:
+                out['undecided'].append('canary %s was NOT reported as a violation of %s (%s)' % (r['name'], prop, r['detail'].get(prop)))
+            out['samples'].append({'canary': r['name'], 'outcome': r['outcome']})
+    out['samples'] = out['samples'][:8]
+    out['cmd'] = 'python3 vf/canary.py --only %s   (edits applied to a scratch copy of /repo/src, never to /repo)' % prop
+    return out
 
 
 def run(prop, pc, results, seed):
-    return []
+    extras = []
+    extras.append(stability(results, seed))
+    extras.append(probes(results))
+    if os.environ.get('VERIF_NO_CANARIES') != '1':
+        extras.append(canaries(prop))
+    return extras
